@@ -136,3 +136,7 @@ package keeper
 // verif:func (Keeper).IterateConsensusStates
 //@ loop 1 forkey c string, rev uint64, h uint64 :: host.FullConsensusStateKey(c, types.NewHeight(rev, h)) requires noslash(c) && len(c) != 0
 //@ loop 1 continue [parse-back] ncalls("cb") == 1 && callarg("cb", 0) == c && callarg("cb", 1).Height.RevisionNumber == rev && callarg("cb", 1).Height.RevisionHeight == h
+
+// verif:func (Keeper).IterateClients
+//@ loop 1 forkey c string :: host.FullClientStateKey(c) requires noslash(c) && len(c) != 0
+//@ loop 1 continue [parse-back] ncalls("cb") == 1 && callarg("cb", 0) == c
